@@ -274,204 +274,129 @@ func c01ReadyTable(e *Env, s *Sched, withReturn bool) {
 func c01Edges(e *Env, s *Sched) {
 	r := e.R
 	r.Rule("C01.edges", "MPT+WMW", "every Depends entry becomes an edge or an error", 3)
-	// by role: the function that calls the edge writer (in a loop over Step.Depends)
-	var setup *ssa.Function
-	if gr := e.graphRoles(); gr.ok {
-		for _, ci := range e.StaticCallSites(gr.AddEdge) {
-			setup = ci.Parent()
-		}
-	}
-	if setup == nil {
-		setup = e.Fn(schedRel, "(*ExecutionGraph).setup")
-	}
-	if setup == nil {
+	gr := e.graphRoles()
+	if gr.AddEdge == nil || gr.EdgeLoop == nil {
+		r.Unknown("edge writer / loop over Step.Depends", schedRel, gr.why)
 		return
 	}
-	predF, succF := e.graphRoles().Pred, e.graphRoles().Succ
-	// the function that writes both adjacency maps
-	var addEdge *ssa.Function
+	addEdge, setup := gr.AddEdge, gr.EdgeLoop
+	predF, succF := gr.Pred, gr.Succ
+	// who writes the adjacency maps
 	writers := map[string][]string{}
 	for _, f := range e.RepoFuncsSorted() {
 		if rootFn(f).Package() != e.P.Pkg(schedRel) {
 			continue
 		}
-		var from, to bool
 		for _, b := range f.Blocks {
 			for _, in := range b.Instrs {
 				if mu, ok := in.(*ssa.MapUpdate); ok {
-					if p, ok := e.C.PathOf(mu.Map); ok && strings.HasSuffix(ir.NamedType(p.Root.Type()), ".ExecutionGraph") {
-						switch p.Dotted() {
-						case succF:
-							from = true
-							writers["from"] = append(writers["from"], ShortFn(f))
-						case predF:
-							to = true
-							writers["to"] = append(writers["to"], ShortFn(f))
-						}
-					}
-				}
-			}
-		}
-		if from && to {
-			addEdge = f
-		}
-	}
-	if addEdge == nil {
-		r.Bad("edge writer: one function updating both g.from and g.to", e.Pos(setup.Pos()), "no function updates both adjacency maps of ExecutionGraph", sprintf("writers: %v", writers))
-		return
-	}
-	okW := len(writers["from"]) == 1 && len(writers["to"]) == 1
-	r.Check(okW, "adjacency maps g.from/g.to written only by "+ShortFn(addEdge), e.Pos(addEdge.Pos()),
-		"another function also writes an adjacency map", sprintf("writers: %v", writers))
-	// addEdge(from,to): g.to[to.id] gets from.id ; g.from[from.id] gets to.id
-	if len(addEdge.Params) == 3 {
-		pf, pt := addEdge.Params[1], addEdge.Params[2]
-		good := 0
-		for _, b := range addEdge.Blocks {
-			for _, in := range b.Instrs {
-				mu, ok := in.(*ssa.MapUpdate)
-				if !ok {
-					continue
-				}
-				mp, _ := e.C.PathOf(mu.Map)
-				kp, okk := e.C.PathOf(mu.Key)
-				if !okk || !kp.Suffix("id") {
-					continue
-				}
-				// value: append(old, other.id)
-				var appended ssa.Value
-				if c, ok := mu.Value.(*ssa.Call); ok {
-					if bi, ok := c.Call.Value.(*ssa.Builtin); ok && bi.Name() == "append" && len(c.Call.Args) == 2 {
-						// variadic slice literal: find the stored element
-						fl := &ir.Flow{C: e.C, Source: func(v ssa.Value) bool {
-							p, ok := e.C.PathOf(v)
-							return ok && p.Suffix("id")
-						}}
-						if sl, ok := c.Call.Args[1].(*ssa.Slice); ok {
-							if al, ok := sl.X.(*ssa.Alloc); ok {
-								for _, ref := range *al.Referrers() {
-									if ia, ok := ref.(*ssa.IndexAddr); ok {
-										for _, r2 := range *ia.Referrers() {
-											if st, ok := r2.(*ssa.Store); ok {
-												if fl.Any(st.Val) && len(fl.Sources) > 0 {
-													appended = fl.Sources[0]
-												}
-											}
-										}
-									}
-								}
+					if p, ok := e.C.PathOf(mu.Map); ok && len(p.Fields) == 1 && strings.HasSuffix(ir.NamedType(p.Root.Type()), ".ExecutionGraph") {
+						for _, u := range gr.Updates {
+							if u.Field == p.Fields[0] {
+								writers[u.Field] = append(writers[u.Field], ShortFn(f))
+								break
 							}
 						}
 					}
 				}
-				if appended == nil {
-					continue
-				}
-				ap, _ := e.C.PathOf(appended)
-				if mp.Dotted() == predF && SameValue(kp.Root, pt) && SameValue(ap.Root, pf) {
-					good++
-				}
-				if mp.Dotted() == succF && SameValue(kp.Root, pf) && SameValue(ap.Root, pt) {
-					good++
-				}
 			}
-		}
-		r.Check(good == 2, ShortFn(addEdge)+": to[to.id]+=from.id and from[from.id]+=to.id", e.Pos(addEdge.Pos()),
-			"the edge writer does not record the edge in both directions with the expected orientation")
-		// both directions are recorded under the same conditions: the two maps stay
-		// inverse to each other as multisets (a de-duplication or filter applied to
-		// one side only makes the readiness gate, the cycle test and the retry walk
-		// disagree about the edge set)
-		type lk struct {
-			i   *ssa.If
-			pol bool
-		}
-		var sets []map[lk]bool
-		var sites []ssa.Instruction
-		for _, b := range addEdge.Blocks {
-			for _, in := range b.Instrs {
-				if mu, ok := in.(*ssa.MapUpdate); ok {
-					if mp, ok := e.C.PathOf(mu.Map); ok && (mp.Dotted() == predF || mp.Dotted() == succF) {
-						m := map[lk]bool{}
-						for _, l := range e.Facts(addEdge).DCS(b) {
-							m[lk{l.If, l.Pol}] = true
-						}
-						sets = append(sets, m)
-						sites = append(sites, in)
-					}
-				}
-			}
-		}
-		same := len(sets) == 2
-		if same {
-			for k := range sets[0] {
-				if !sets[1][k] {
-					same = false
-				}
-			}
-			for k := range sets[1] {
-				if !sets[0][k] {
-					same = false
-				}
-			}
-		}
-		pos := e.Pos(addEdge.Pos())
-		if len(sites) > 0 {
-			pos = e.InstrPos(sites[len(sites)-1])
-		}
-		r.Check(same, ShortFn(addEdge)+": both adjacency maps are updated under the same conditions", pos,
-			"an edge is recorded in one adjacency map but (under some condition) not in the other: g.to and g.from are no longer inverse to each other, so the readiness gate / in-degree count (g.to) and the relaxation / retry walk (g.from) see different edge sets - e.g. a dependency listed twice makes the cycle test subtract an edge it never counted")
-	} else {
-		r.Unknown(ShortFn(addEdge)+" signature", e.Pos(addEdge.Pos()), "expected (g, from, to)")
-	}
-	// in setup: inner loop over Step.Depends
-	loops := ir.Loops(setup)
-	var dl *ir.Loop
-	var owner ssa.Value
-	for _, l := range loops {
-		if l.Ranged == nil {
-			continue
-		}
-		if p, ok := e.C.PathOf(l.Ranged); ok && p.Suffix("Step.Depends") {
-			dl = l
-			owner = p.Root
 		}
 	}
-	if dl == nil {
-		r.Bad("graph setup: loop over Step.Depends", e.Pos(setup.Pos()), "the edge setup no longer ranges over every node's Step.Depends")
-		return
+	okW := true
+	for _, ws := range writers {
+		for _, w := range ws {
+			if w != ShortFn(addEdge) {
+				okW = false
+			}
+		}
 	}
-	// from the first body block, every path back to the header passes addEdge or returns
+	r.Check(okW, "adjacency maps written only by the edge writer", e.Pos(addEdge.Pos()),
+		"another function also writes an adjacency map", sprintf("writers: %v", writers))
+	// one update per direction: pred[dependent.id] += dependency.id ; succ[dependency.id] += dependent.id
+	nP, nS, nOther := 0, 0, 0
+	for _, u := range gr.Updates {
+		switch {
+		case u.Field == predF && u.KeyDependent && u.AppDependency:
+			nP++
+		case u.Field == succF && u.KeyDependency && u.AppDependent:
+			nS++
+		default:
+			nOther++
+		}
+	}
+	r.Check(gr.ok && nP == 1 && nS == 1 && nOther == 0, "edge writer: pred[dependent.id]+=dependency.id and succ[dependency.id]+=dependent.id", e.Pos(addEdge.Pos()),
+		"the edge writer does not record the edge in both directions with the expected orientation (the dependent is the node whose Depends list is read)", gr.why)
+	// both directions are recorded under the same conditions: the two maps stay
+	// inverse to each other as multisets (a de-duplication or filter applied to
+	// one side only makes the readiness gate, the cycle test and the retry walk
+	// disagree about the edge set)
+	type lk struct {
+		i   *ssa.If
+		pol bool
+	}
+	var sets []map[lk]bool
+	var sites []ssa.Instruction
+	for _, u := range gr.Updates {
+		m := map[lk]bool{}
+		for _, l := range e.Facts(addEdge).DCS(u.Site.Block()) {
+			m[lk{l.If, l.Pol}] = true
+		}
+		sets = append(sets, m)
+		sites = append(sites, u.Site)
+	}
+	same := len(sets) == 2
+	if same {
+		for k := range sets[0] {
+			if !sets[1][k] {
+				same = false
+			}
+		}
+		for k := range sets[1] {
+			if !sets[0][k] {
+				same = false
+			}
+		}
+	}
+	pos := e.Pos(addEdge.Pos())
+	if len(sites) > 0 {
+		pos = e.InstrPos(sites[len(sites)-1])
+	}
+	r.Check(same, "edge writer: both adjacency maps are updated under the same conditions", pos,
+		"an edge is recorded in one adjacency map but (under some condition) not in the other: the two maps are no longer inverse to each other, so the readiness gate / in-degree count and the relaxation / retry walk see different edge sets - e.g. a dependency listed twice makes the cycle test subtract an edge it never counted")
+	// in the edge loop: from the first body block, every path back to the header adds the edge or returns
+	dl := gr.DepLoop
 	var body *ssa.BasicBlock
 	for _, sb := range dl.Header.Succs {
 		if dl.Blocks[sb] {
 			body = sb
 		}
 	}
-	isAdd := func(in ssa.Instruction) bool {
-		c, ok := in.(*ssa.Call)
-		return ok && c.Call.StaticCallee() == addEdge
+	if body == nil {
+		r.Unknown("graph setup: body of the loop over Step.Depends", e.Pos(setup.Pos()), "not found")
+		return
 	}
-	bad, path := ir.Bypass(nil, body, ir.PathQuery{
-		Stop: func(in ssa.Instruction) bool { return isAdd(in) || ir.IsReturn(in) },
-		Bad: func(in ssa.Instruction) bool {
-			return in.Block() == dl.Header && in == dl.Header.Instrs[0]
-		},
-	})
-	_ = path
-	r.Check(bad == nil, "graph setup: each Depends entry → addEdge or error return", e.InstrPos(body.Instrs[0]),
-		"an iteration over Depends can finish without adding the edge or returning the lookup error (dependency silently dropped)")
-	// returns inside the loop must return a non-nil error; and addEdge's target is the owner of Depends
-	for b := range dl.Blocks {
-		for _, in := range b.Instrs {
-			if isAdd(in) {
-				c := in.(*ssa.Call)
-				okT := len(c.Call.Args) == 3 && (SameValue(c.Call.Args[2], owner) || sameElem(c.Call.Args[2], owner))
-				r.Check(okT, "graph setup: addEdge(dep, node) targets the node whose Depends is read", e.InstrPos(in),
-					"the edge's target is not the node whose Depends list is being processed")
+	errReturn := func(in ssa.Instruction) bool {
+		rt, ok := in.(*ssa.Return)
+		if !ok || len(rt.Results) == 0 {
+			return false
+		}
+		for _, v := range RetVals(rt, len(rt.Results)-1) {
+			for _, x := range phiLeaves(v) {
+				if ir.IsNilConst(x) {
+					return false
+				}
 			}
 		}
+		return true
 	}
+	bad, _ := ir.Bypass(nil, body, ir.PathQuery{
+		Stop: func(in ssa.Instruction) bool { return gr.isEdgeSite(in) || errReturn(in) },
+		Bad: func(in ssa.Instruction) bool {
+			return ir.IsReturn(in) || (in.Block() == dl.Header && in == dl.Header.Instrs[0])
+		},
+	})
+	r.Check(bad == nil, "graph setup: each Depends entry → edge or error return", e.InstrPos(body.Instrs[0]),
+		"an iteration over Depends can finish without adding the edge or returning the lookup error (dependency silently dropped, or the setup stops there and reports success)")
 }
 
 func c01FlipFirst(e *Env, s *Sched) {
@@ -644,8 +569,8 @@ func c01FinishWrites(e *Env, s *Sched) {
 		}
 		// a function through which setup / Execute / teardown of the node is reached
 		return e.ReachesRepo(cal, func(x *ssa.Function) bool {
-			n := ir.FuncName(x)
-			return x == s.Execute || n == "(*"+schedRel+".Node).setup" || n == "(*"+schedRel+".Node).teardown"
+			nr := e.nodeRoles()
+			return x == s.Execute || (nr.Setup != nil && x == nr.Setup) || (nr.Teardown != nil && x == nr.Teardown)
 		})
 	}
 	isExecCall := func(in ssa.Instruction) bool {
@@ -698,7 +623,7 @@ func c01FinishWrites(e *Env, s *Sched) {
 			case k == errc && inW:
 				ok1 := false
 				for _, l := range lits {
-					if l.Kind == "cmp" && l.Op == token.NEQ && ir.IsNilConst(l.Y) && execLike(ir.Deep(l.X)) {
+					if l.Kind == "cmp" && l.Op == token.NEQ && ir.IsNilConst(l.Y) && allNonNil(l.X, execLike) {
 						ok1 = true
 					}
 				}
